@@ -90,6 +90,11 @@ POW_FAMILIES = [
     ("align-data-bank", lambda e: "#bankdef a { bits = 8, addr = 0, size = 0x10, outp = 0 }\n#d8 1\n#align %s\n#d8 2\n" % e),
     ("bits-res", lambda e: "#bankdef b\n{\n    #bits %s\n    #outp 0\n}\n#res 0xffff_ffff\n" % e),
     ("bits-data", lambda e: "#bankdef b\n{\n    #bits %s\n    #outp 0\n}\n#d8 1\nl:\n#d8 l\n" % e),
+    # items that place nothing (a label, an empty reservation) at a far position: checked like any other item
+    ("addr-label", lambda e: "#d8 1\n#addr %s\nend:\n" % e),
+    ("addr-label-outp", lambda e: "#bankdef rom { #addr 0, #outp 8 }\n#addr %s\nend:\n" % e),
+    ("addr-res0-outp", lambda e: "#bankdef rom { #addr 0, #outp 8 }\n#addr %s\n#res 0\n" % e),
+    ("align-label-outp", lambda e: "#bankdef rom { #addr 0, #outp 8 }\n#d8 1\n#align %s\nend:\n" % e),
     # the same indices where sizes are computed statically (rule productions)
     ("slice-left-static", lambda e: "#ruledef\n{\n    t {x} => x[%s:0]\n}\nt 1\n" % e),
     ("slice-concat-static", lambda e: "#ruledef\n{\n    t {x} => x[%s:0] @ x[%s:0]\n}\nt 1\n" % (e, e)),
@@ -154,7 +159,7 @@ def run_c19(ck):
     quick = ck.tier == "quick"
     exe = common.build_binary()
     depths = [10, 45, 60, 300, 3000, 30000] if quick else [5, 10, 25, 45, 50, 51, 60, 100, 300, 1000, 3000, 10000, 30000, 100000]
-    ks = [8, 31, 32, 33, 63, 64, 65, 200] if quick else [1, 8, 16, 29, 30, 31, 32, 33, 40, 62, 63, 64, 65, 100, 200, 1000]
+    ks = [8, 31, 32, 33, 61, 63, 64, 65, 200] if quick else [1, 8, 16, 28, 29, 30, 31, 32, 33, 40, 60, 61, 62, 63, 64, 65, 100, 200, 1000]
     digs = [3, 10, 19, 20, 21, 40, 400] if quick else [1, 3, 9, 10, 18, 19, 20, 21, 25, 40, 100, 400, 4000]
     plan = []      # (family, limit, cycle, mag, files, args)
     for name, limit, cycle, mags, gen in FAMILIES:
